@@ -70,7 +70,7 @@ pub fn write(
 
     let length = len(disconnect, properties);
 
-    if length == 2 {
+    if disconnect.reason_code == DisconnectReasonCode::NormalDisconnection && properties.is_none() {
         buffer.put_u8(0x00);
         return Ok(length);
     }
